@@ -218,7 +218,7 @@ func c02Stream(c *fw.Ctx, label string, n *kit.Node, nPub, nSub, perPub int, see
 }
 
 func runC02(c *fw.Ctx) {
-	c.Rule = "publish streams against a broker node with the real on-disk commit log: P in {1,3} concurrent publishers x S in {1,3} subscribers (subscription QoS 0/1/2, full acknowledgement handshakes), publish QoS 0/1/2 mix, payloads 0 B - 1 MiB with a content hash in the tag; starting from an empty log (the first message is offset 0), long enough to cross segment rolls (500, 1000, ...) and the truncation at offset 2000 (quick 2200 messages; thorough 6000), and from a pre-filled log with a stored consumer offset after node restarts on the same directory; plus the scenario in which a self-subscribed QoS 2 publisher's inbound exchange and an outbound delivery to it use the same packet identifier. Oracle: after a sentinel barrier every acknowledged QoS>=1 publish was received >=1 times by every subscriber that stayed connected, topic and payload intact. distinct = scenario (shape, restart position); non-trivial = >1 message"
+	c.Rule = "publish streams against a broker node with the real on-disk commit log: P in {1,3} concurrent publishers x S in {1,3} subscribers (subscription QoS 0/1/2, full acknowledgement handshakes), publish QoS 0/1/2 mix, payloads 0 B - 1 MiB with a content hash in the tag; starting from an empty log (the first message is offset 0), long enough to cross segment rolls (500, 1000, ...) and the truncation at offset 2000 (quick 2200 messages; thorough 6000), and from a pre-filled log with a stored consumer offset after node restarts on the same directory; plus the scenario in which a self-subscribed QoS 2 publisher's inbound exchange and an outbound delivery to it use the same packet identifier, a QoS 2 subscriber that withholds PUBCOMP so that deliveries overlap, and retained publishes with an empty payload. Oracle: after a sentinel barrier every acknowledged QoS>=1 publish was received >=1 times by every subscriber that stayed connected, topic and payload intact. distinct = scenario (shape, restart position); non-trivial = >1 message"
 	c.Assume("QoS 0 publishes are not acknowledged and therefore not required; duplicates are allowed")
 	c.Assume("delivery barrier: a publisher that waits for each PUBACK appends in order; log consumer and writer are FIFO, so a sentinel published after everything else is written last")
 
@@ -275,6 +275,8 @@ func runC02(c *fw.Ctx) {
 	}
 	// ---- D: same packet identifier inbound (QoS 2) and outbound -------------------------
 	c02IDCollision(c, base)
+	// ---- E: overlapping QoS 2 deliveries (PUBCOMP withheld) and retained publishes with empty payload
+	c02Overlap(c, base)
 	c.Floor("acked_deliveries_checked", 500)
 }
 
@@ -366,5 +368,119 @@ func c02IDCollision(c *fw.Ctx, base string) {
 				c.Observe("id_collision_scenarios", 1)
 			}()
 		}
+	}
+}
+
+// c02Overlap: (1) a QoS 2 subscriber that answers PUBREC at once but withholds PUBCOMP, so that
+// several deliveries to it overlap; (2) publishes with the retain flag and an empty payload (they
+// clear the retained slot AND are ordinary messages for the current subscribers).
+func c02Overlap(c *fw.Ctx, base string) {
+	for variant := 0; variant < 2; variant++ {
+		label := []string{"pubcomp-withheld", "retained-empty-payload"}[variant]
+		fw.LogCase("C02 %s", label)
+		cl := kit.NewCluster(base + "/e-" + label)
+		n, err := cl.AddNode(kit.NodeOpts{ID: 1})
+		if err != nil {
+			c.Inconclusive("cannot start node: " + err.Error())
+			return
+		}
+		func() {
+			defer cl.Close()
+			sub, err := n.MustConnect(kit.ConnectOpts{ClientID: "s", KeepAlive: 600, Clean: true})
+			if err != nil {
+				c.Inconclusive(label + ": connect: " + err.Error())
+				return
+			}
+			defer sub.Close()
+			z, err := n.MustConnect(kit.ConnectOpts{ClientID: "z", KeepAlive: 600, Clean: true})
+			if err != nil {
+				c.Inconclusive(label + ": connect: " + err.Error())
+				return
+			}
+			defer z.Close()
+			pub, err := n.MustConnect(kit.ConnectOpts{ClientID: "p", KeepAlive: 600, Clean: true})
+			if err != nil {
+				c.Inconclusive(label + ": connect: " + err.Error())
+				return
+			}
+			defer pub.Close()
+			withheld := []int{}
+			if variant == 0 {
+				sub.OnPubRel = func(p kit.Pkt) bool { withheld = append(withheld, p.ID); return false }
+			}
+			if sub.Sub1("c02e/#", 2) != nil || z.Sub1("c02e/#", 0) != nil {
+				c.Inconclusive(label + ": subscribe failed")
+				return
+			}
+			if ok, _ := sub.Ping(kit.DefaultWait); !ok {
+				c.Inconclusive(label + ": no PINGRESP")
+				return
+			}
+			sent := []*c02Sent{}
+			emptyTopics := []string{}
+			for i := 0; i < 6; i++ {
+				s := &c02Sent{tag: fmt.Sprintf("%s-m%d", label, i), topic: fmt.Sprintf("c02e/t%d", i%2), qos: 1 + i%2}
+				retain := false
+				pl := c02Payload(s.tag, 12)
+				if variant == 1 && i%2 == 1 {
+					// retain flag + empty payload; identified by its own topic
+					s.topic = fmt.Sprintf("c02e/clear%d", i)
+					pl = nil
+					retain = true
+					emptyTopics = append(emptyTopics, s.topic)
+				} else if variant == 1 && i == 2 {
+					retain = true
+				}
+				s.sum, s.size = sha1.Sum(pl), len(pl)
+				s.acked, _ = pub.Publish(s.topic, pl, s.qos, retain, kit.DefaultWait)
+				if !s.acked {
+					c.Inconclusive(label + ": publish not acknowledged")
+					return
+				}
+				if pl != nil {
+					sent = append(sent, s)
+				}
+			}
+			// fence: the witness has a later message, so every delivery above has been attempted
+			if acked, _ := pub.Publish("c02e/fence", []byte("FENCE|"), 1, false, kit.DefaultWait); !acked {
+				c.Inconclusive(label + ": fence not acknowledged")
+				return
+			}
+			if _, _, err := z.WaitFor(0, 60*time.Second, func(e kit.Event) bool { return e.Pkt.Type == kit.PUBLISH && string(e.Pkt.Payload) == "FENCE|" }); err != nil {
+				c.Inconclusive(label + ": witness never saw the fence")
+				return
+			}
+			if variant == 0 {
+				sub.OnPubRel = nil
+				// release the withheld exchanges (PUBREL is retransmitted anyway; answer the ones seen)
+				if ok, _ := sub.Ping(kit.DefaultWait); !ok {
+					c.Inconclusive(label + ": no PINGRESP")
+					return
+				}
+				for _, e := range sub.Events() {
+					if e.Pkt.Type == kit.PUBREL {
+						sub.Send(kit.EncPubComp(e.Pkt.ID))
+					}
+				}
+			}
+			if !c02Barrier(c, label, pub, []*kit.Client{sub}, "c02e/end", 3) {
+				return
+			}
+			c02Verify(c, label, []*kit.Client{sub}, []int{2}, sent, "lost:"+label)
+			for _, t := range emptyTopics {
+				got := 0
+				for _, p := range sub.Publishes() {
+					if p.Topic == t {
+						got++
+					}
+				}
+				c.Observe("acked_deliveries_checked", 1)
+				if got == 0 {
+					c.Violation("lost:retained-empty-payload", fmt.Sprintf("%s: the acknowledged publish on %q (retain flag, empty payload) was never written to the connected subscriber", label, t), map[string]interface{}{"topic": t})
+				}
+			}
+			c.Case(label, true)
+			c.Observe("overlap_scenarios", 1)
+		}()
 	}
 }
